@@ -22,6 +22,7 @@ bound session and comparing what is written and whether the link stays up with `
 -/
 import SmppVerif.Lemmas.Classes
 import SmppVerif.Lemmas.ReceiveLoop
+import SmppVerif.Gen.Site
 
 namespace SmppVerif.Props.C05
 open SmppVerif SmppVerif.Pdu SmppVerif.Receiver SmppVerif.Lemmas.Classes
@@ -131,6 +132,11 @@ example : receive [0,0,0,16, 0,0,0,3, 0,0,0,0, 0,0,0,9] encGsm = .respond generi
 example : receive [0,0,0,18, 0,0,0,5, 0,0,0,0, 0,0,0,4, 0,0] encGsm = .respond genericNack rUnknownErr 4 := by decide +kernel
 example : receive [0,0,0,16, 0x12,0x34,0x56,0x78, 0,0,0,0, 0,0,0,1] encGsm = .escape .valueError := by decide +kernel
 
+/-- tie to the source (Gen/Site.lean): one iteration of `_receive_data` reads a PDU, calls the handler, the received hook
+    (one of its two call sites) and then `_send_data` for the response -/
+theorem receive_step_order :
+    Gen.Site.receiveData = ["_get_pdu", "set", "pdu_handler", "received", "received", "_send_data"] := by decide
+
 end SmppVerif.Props.C05
 
 #print axioms SmppVerif.Props.C05.decoder_classes
@@ -140,3 +146,4 @@ end SmppVerif.Props.C05
 #print axioms SmppVerif.Props.C05.response_ignored
 #print axioms SmppVerif.Props.C05.escape_only_unusable_header
 #print axioms SmppVerif.Props.C05.stream_handled_pdu_by_pdu
+#print axioms SmppVerif.Props.C05.receive_step_order
